@@ -275,6 +275,10 @@ def run(ctx):
                 blocking_labels(eng, rep, topo, g, labels, f'counterexample of design mutation {mut}')
     for topo, spec, num, depth, kw in sc['conf']:
         eng.conformance(topo, spec, num, depth, **kw)
+    # a stalled consumer is dropped as timed out when a sibling's request makes the sender look, and has to register anew when it
+    # runs again: TLC's shortest behaviour that gets there, replayed with the state compared after every step
+    eng.reach(topos.tee(maxseq=3, conn_ticks=2), 'SpecPrompt', 'X_NoLiveEviction', timeout=600, max_faults=1, fault_kinds=['stall'],
+              victims=['B'])
     mx = 0
     for topo, victim, n, steps, tag in sc['stall']:
         mx = max(mx, stall_runs(eng, rep, topo, victim, n, steps, tag))
